@@ -164,8 +164,8 @@ Definition event_step (n:name) (body:list stmt) (ap:app) : app :=
   let e := match a_eps ap !! k with Some e => e | None => Ep true false ∅ [] end in
   App (a_long ap) (a_attrs ap) (a_types ap) (<[k := Ep (e_pubsub e) (e_rest e) (e_attrs e) (e_stmts e ++ body)]> (a_eps ap)).
 
-(* the REST tree flattened to (endpoint key, attribute entries, body) in walk order: methods of a node before
-   its sub-paths?  No: in source order the grammar allows them mixed; the generator writes methods first. *)
+(* the REST tree flattened to (endpoint key, attribute entries, body) in walk order; the renderer writes the
+   methods of a node before its sub-paths (the grammar would allow them mixed) *)
 Fixpoint rest_eps (prefix:list name) (r:rnode) : list (epkey * list entry * list stmt) :=
   match r with
   | RN segs methods subs =>
